@@ -25,6 +25,7 @@ PROP = 'C19'
 def rule_res1(prog, E):
     r = RuleResult('R-RES-1', 'modelcheck returns a set allocated in the '
                    'call, aliasing no argument and no shared state')
+    pending = []
     for q in c07.ENTRIES:
         f = prog.func(q)
         s = E.summ[f.qn]
@@ -35,6 +36,11 @@ def rule_res1(prog, E):
                     else 'module/class state' for i in s.ralias)
         r.inst(entry=f.short(), result_aliases=al,
                result_kinds=sorted(s.rkinds))
+        if not al and any(k.startswith('opaque-call') for k in s.rkinds):
+            pending.append(Inconclusive(
+                'R-RES-1', '%s returns the result of a computed function '
+                'value (%s)' % (f.short(), sorted(s.rkinds)), f.where()))
+            continue
         if al:
             r.fail(Finding(
                 PROP, 'R-RES-1', f.where(), f.short(),
@@ -46,7 +52,13 @@ def rule_res1(prog, E):
             r.ok()
     # kinds: follow delegations down to allocations
     entry, labeller, memo_ok, why = c01.discover_labeller(prog)
-    r1, table = c01.rule_ctl1(prog, labeller)
+    try:
+        r1, table = c01.rule_ctl1(prog, labeller)
+    except Inconclusive as e:
+        if getattr(e, 'partial', None) is None:
+            raise
+        r1, table = e.partial
+        pending.append(e)
     K = Sym('K', ('inst', prog.cls('kripke.Kripke')))
     shp = {k: (v, lhs) for (k, v, lhs) in c01.shapes(prog)}
     for key in c01.RESTRICTED_SHAPES:
@@ -63,11 +75,9 @@ def rule_res1(prog, E):
             vals = [(kind[2], Obj(kind[1].oid))]
             name = labeller.short()
         elif kind[0] == 'other':
-            r.fail(Finding(
-                PROP, 'R-RES-1', labeller.where(), labeller.short(),
-                'kind:%s' % key, 'the CTL labeller returns %s for %s, not a '
-                'set built in the call' % (kind[1], key),
-                expected='a set allocated during the call'))
+            pending.append(Inconclusive(
+                'R-RES-1', 'the CTL labeller returns %s for %s' % (
+                    kind[1][:120], key), labeller.where()))
             continue
         else:
             continue
@@ -78,6 +88,11 @@ def rule_res1(prog, E):
                    else repr(v)[:120])
             if ok:
                 r.ok()
+            elif isinstance(v, App) and v.op in ('call', 'mcall'):
+                # the result of something that is not interpreted
+                pending.append(Inconclusive(
+                    'R-RES-1', 'the CTL handler of %s returns %r' % (key, v),
+                    labeller.where()))
             else:
                 r.fail(Finding(
                     PROP, 'R-RES-1', prog.func(
@@ -153,6 +168,9 @@ def rule_res1(prog, E):
         r.fail(Finding(PROP, 'R-RES-1', f.where(), f.short(), 'kind:CTLS',
                        'CTLS.modelcheck returns %s, not the result of a '
                        'CTL/LTL modelcheck' % dele))
+    if pending:
+        pending[0].partial = r
+        raise pending[0]
     return r
 
 
